@@ -83,6 +83,7 @@ def child_main(argv):
         for k in (1 << 16, 1 << 20):
             lengths += [k - 9, k - 1, k, k + 1, k + 7, k + 13]
     pool = bytes(rng.randrange(256) for _ in range(8192))
+    counter = bytes((i * 7 + 3) & 0xFF for i in range(256))
 
     def payload(n, style):
         if style == 0:
@@ -91,7 +92,7 @@ def child_main(argv):
             return (pool * reps)[off:off + n]
         if style == 1:
             return bytes([0xA5]) * n
-        return bytes((i * 7 + 3) & 0xFF for i in range(n)) if n < 5000 else (bytes(range(256)) * (n // 256 + 1))[:n]
+        return (counter * (n // len(counter) + 1))[:n]
 
     if kind == "driver":
         import ctypes
